@@ -45,6 +45,7 @@ package engine
 
 //@ iface Matcher.Match(got, d, r) (d1, ok)
 //@   requires d != nil
+//@   requires [C08] a-valid-value: kind(got) != 0
 //@   ensures [C01,C04,C05,C06] decides-instance: ok == MatchOK(self, got, dmap(d), r)
 //@   ensures [C01,C02,C03,C04] binds: ok ==> dmap(d1) == MatchD(self, got, dmap(d), r)
 //@   ensures [C02] never-rebinds: ok ==> keepsBindings(dmap(d), dmap(d1))
@@ -66,6 +67,7 @@ package engine
 
 // A struct pattern: same struct type, every field an instance, data threaded in field order.
 //@ func (m StructMatcher) Match(got, d, r) (d1, ok)
+//@   requires typing: tkind(m.Type) == 25 && len(m.Fields) == numfield(m.Type)
 //@   unfold MatchOK(boxed(m), got, dmap(d), r) == (m.Type == rtype(got) && forall i int {m.Fields[i]} :: 0 <= i && i < len(m.Fields) ==> MatchOK(m.Fields[i], fld(got, i), thrFld(m.Fields, got, dmap(d), r, i), r))
 //@   unfold MatchD(boxed(m), got, dmap(d), r) == thrFld(m.Fields, got, dmap(d), r, len(m.Fields))
 //@   unfold thrFld(m.Fields, got, dmap(d), r, 0) == dmap(d)
@@ -96,6 +98,7 @@ package engine
 
 // An AST node narrows the region to the node itself and otherwise defers to the wrapped matcher.
 //@ func (m GenericNodeMatcher) Match(got, d, r) (d1, ok)
+//@   requires typing: kind(got) == 20 || kind(got) == 22
 //@   requires m.Matcher != nil
 //@   requires typing: !risnil(got) ==> implements(rvIface(got), "go/ast.Node")
 //@   unfold MatchOK(boxed(m), got, dmap(d), r) == MatchOK(m.Matcher, got, dmap(d), ite(risnil(got), r, nodeRegionOf(rvIface(got))))
@@ -121,6 +124,21 @@ package engine
 //@   ensures [C02] keepsBindings(dmap(d), dmap(d1))
 //@   ensures d1 != nil
 //@   assigns nothing
+
+// A position of the '+' pattern is regenerated as the position recorded for the same patch position while
+// matching (so that the spacing of the original is kept), else as the position handed down; an absent
+// position stays absent (C03, C05). The look-up is by the line and column of the patch position.
+//@ func lookupPosMatch(fset, d, patchPos) (pos)
+//@   requires d != nil
+//@   assigns nothing
+//@   at call data.Lookup assert [C03] looked-up-under-the-line-and-column-of-the-patch-position: arg0 == d && arg1 == boxed(mk("github.com/uber-go/gopatch/internal/engine.posMatchKey", fsPosition(fset, patchPos).Line, fsPosition(fset, patchPos).Column))
+//@   ensures [C03] absent-when-nothing-was-recorded: dmap(d)[boxed(mk("github.com/uber-go/gopatch/internal/engine.posMatchKey", fsPosition(fset, patchPos).Line, fsPosition(fset, patchPos).Column))] == nil ==> pos == 0
+
+//@ func (r PosReplacer) Replace(d, cl, pos) (v, err)
+//@   ensures [C03] never-fails: err == nil
+//@   ensures [C03,C05] an-absent-position-stays-absent: r.Pos == 0 ==> v == rvOf(boxed(r.Pos))
+//@   at call engine.lookupPosMatch assert [C03] the-position-matched-for-this-patch-position: arg0 == r.Fset && arg1 == d && arg2 == r.Pos
+//@   ensures [C03] the-recorded-position-else-the-one-handed-down: r.Pos != 0 ==> v == rvOf(boxed(ite(ret("engine.lookupPosMatch", 0) != 0, ret("engine.lookupPosMatch", 0), pos0)))
 
 // nilMatcher / successMatcher: a predicate on the value; the data is returned unchanged.
 //@ func (f matcherFunc) Match(v, d, r) (d1, ok)
@@ -169,6 +187,7 @@ package engine
 // metavariables, statement / expression / field lists may contain elisions, everything else is compiled
 // structurally. The recursion descends into strictly smaller pattern trees.
 //@ func (c *matcherCompiler) compile(v) (m)
+//@   requires [C08] a-valid-value: kind(v) != 0
 //@   requires typing: compileEnvOK()
 //@   unfold compileEnvOK() == compileEnvFacts()
 //@   decreases 8 * rvSize(v) + 7
@@ -187,6 +206,7 @@ package engine
 // regenerated from the recorded positions, identifiers may be metavariables, the three list kinds may
 // hold elisions, everything else is compiled structurally.
 //@ func (c *replacerCompiler) compile(v) (m)
+//@   requires [C08] a-valid-value: kind(v) != 0
 //@   requires typing: compileEnvOK()
 //@   unfold compileEnvOK() == compileEnvFacts()
 //@   decreases 8 * rvSize(v) + 7
@@ -206,6 +226,8 @@ package engine
 // `for ... { body }` (C04): matches any for / range statement whose body matches the body pattern; the
 // header of the matched loop is recorded under the elision's position so that it can be reproduced.
 //@ func (m ForDotsMatcher) Match(got, d, r) (d1, ok)
+//@   requires typing: tkind(gt("ForStmtPtrType")) == 22 && tkind(gt("RangeStmtPtrType")) == 22
+//@   requires typing: rtype(got) == gt("ForStmtPtrType") || rtype(got) == gt("RangeStmtPtrType") ==> !risnil(got) && kind(relem(got)) == 25
 //@   requires typing: m.Body != nil
 //@   requires typing: gt("ForStmtPtrType") != nil && gt("RangeStmtPtrType") != nil
 //@   requires typing: rtype(got) == gt("ForStmtPtrType") || rtype(got) == gt("RangeStmtPtrType") ==> lastNamed(rtype(relem(got)), "Body", numfield(rtype(relem(got)))) >= 0 && forall k int {tfieldName(rtype(relem(got)), k)} :: 0 <= k && k < numfield(rtype(relem(got))) && tfieldName(rtype(relem(got)), k) == "Body" ==> implements(rvIface(fld(relem(got), k)), "go/ast.Node")
@@ -218,6 +240,7 @@ package engine
 //@   loop 0
 //@     unfold lastNamed(rtype(relem(got0)), "Body", i + 1) == ite(tfieldName(rtype(relem(got0)), i) == "Body", i, lastNamed(rtype(relem(got0)), "Body", i))
 //@     invariant 0 <= i && i <= numfield(rtype(relem(got0)))
+//@     invariant lastNamed(rtype(relem(got0)), "Body", i) < i
 //@     invariant lastNamed(rtype(relem(got0)), "Body", i) >= 0 ==> bodyField.Idx == lastNamed(rtype(relem(got0)), "Body", i) && bodyField.Value == fld(relem(got0), bodyField.Idx) && bodyFieldRegion == nodeRegionOf(rvIface(bodyField.Value))
 //@     invariant otherFields.arr == 0 || fresh(otherFields.arr)
 //@     decreases numfield(rtype(relem(got0))) - i
@@ -238,6 +261,8 @@ package engine
 // match the (elision-framed) statement pattern; nothing else. The container's other fields are recorded so
 // that the container can be rebuilt around the rewritten statements.
 //@ func (m stmtSliceContainerMatcher) Match(v, d, r) (d1, ok)
+//@   requires typing: tkind(gt("BlockStmtType")) == 25 && tkind(gt("CaseClauseType")) == 25 && tkind(gt("CommClauseType")) == 25
+//@   requires typing: tkind(rtype(v)) == 22 && (telem(rtype(v)) == gt("BlockStmtType") || telem(rtype(v)) == gt("CaseClauseType") || telem(rtype(v)) == gt("CommClauseType")) ==> !risnil(v)
 //@   requires typing: m.Stmts != nil
 //@   requires typing: gt("BlockStmtType") != nil && gt("CaseClauseType") != nil && gt("CommClauseType") != nil && gt("BlockStmtType") != gt("CaseClauseType") && gt("BlockStmtType") != gt("CommClauseType")
 //@   requires typing: telem(rtype(v)) != nil && relem(v) == relem(v) && rtype(relem(v)) == telem(rtype(v))
@@ -255,6 +280,7 @@ package engine
 //@     unfold lastNamed(telem(rtype(v0)), stmtFieldName(telem(rtype(v0))), i + 1) == ite(tfieldName(telem(rtype(v0)), i) == stmtFieldName(telem(rtype(v0))), i, lastNamed(telem(rtype(v0)), stmtFieldName(telem(rtype(v0))), i))
 //@     invariant 0 <= i && i <= numfield(telem(rtype(v0)))
 //@     invariant stmtField == stmtFieldName(telem(rtype(v0)))
+//@     invariant lastNamed(telem(rtype(v0)), stmtFieldName(telem(rtype(v0))), i) < i
 //@     invariant lastNamed(telem(rtype(v0)), stmtFieldName(telem(rtype(v0))), i) >= 0 ==> stmtsField.FieldIdx == lastNamed(telem(rtype(v0)), stmtFieldName(telem(rtype(v0))), i) && stmtsField.Value == fld(relem(v0), stmtsField.FieldIdx)
 //@     invariant fields.arr == 0 || fresh(fields.arr)
 //@     decreases numfield(telem(rtype(v0))) - i
@@ -324,6 +350,7 @@ package engine
 
 // matchPrefix: all of want matches got[idx], got[idx+1], ... in order, data threaded left to right.
 //@ func matchPrefix(want, got, d, r, idx) (newIdx, d1, ok)
+//@   requires [C08] the-elements-are-values: forall k int {got[k]} :: 0 <= k && k < len(got) ==> kind(got[k]) != 0
 //@   requires d != nil && 0 <= idx && idx <= len(got)
 //@   requires forall j int {want[j]} :: 0 <= j && j < len(want) ==> want[j] != nil
 //@   unfold thrAt(want, got, dmap(d), r, idx, 0) == dmap(d)
@@ -346,6 +373,7 @@ package engine
 // shortest run that lets the section match (first position, left to right). Every attempt starts
 // from the data the search was entered with (C02: a failed attempt leaves no bindings behind).
 //@ func findSection(dots, want, got, d, r, idx) (newIdx, d1, ok)
+//@   requires [C08] the-elements-are-values: forall k int {got[k]} :: 0 <= k && k < len(got) ==> kind(got[k]) != 0
 //@   requires d != nil && 0 <= idx && idx <= len(got)
 //@   requires forall j int {want[j]} :: 0 <= j && j < len(want) ==> want[j] != nil
 //@   requires typing: forall i int {got[i]} :: 0 <= i && i < len(got) ==> implements(rvIface(got[i]), "go/ast.Node")
@@ -370,6 +398,7 @@ package engine
 // A list pattern with elisions: the first section is anchored at the start, every later section is
 // searched left to right (shortest run for the elision before it), and the list must be consumed.
 //@ func (m SliceDotsMatcher) Match(got, d, r) (d1, ok)
+//@   requires typing: kind(got) == 23
 //@   ensures [C04] some-choice-of-runs-suffices: someRuns(boxed(m), got, dmap(d), r) ==> ok
 //@   requires typing: len(m.Sections) > 0 && len(m.Dots) == len(m.Sections) - 1
 //@   requires typing: forall s int {m.Sections[s]} :: 0 <= s && s < len(m.Sections) ==> forall j int {m.Sections[s][j]} :: 0 <= j && j < len(m.Sections[s]) ==> m.Sections[s][j] != nil
@@ -378,6 +407,7 @@ package engine
 //@   loop 0
 //@     invariant 0 <= i && i <= rlen(got) && len(gotItems) == rlen(got)
 //@     invariant forall q int {gotItems[q]} :: 0 <= q && q < i ==> gotItems[q] == idx(got, q)
+//@     invariant [C08] forall q int {gotItems[q]} :: 0 <= q && q < i ==> kind(gotItems[q]) != 0
 //@     decreases rlen(got) - i
 //@   loop 1
 //@     unfold MatchOK(boxed(m), got, dmap(d0), r) == (pfxOK(m.Sections[0], gotItems, dmap(d0), secRegion(gotItems, r, 0, len(m.Sections[0])), 0) && (forall j int {m.Dots[j]} :: 0 <= j && j < len(m.Sections) - 1 ==> fsOK(m.Dots[j], m.Sections[1:][j], gotItems, sdD(m.Sections[1:], m.Dots, gotItems, r, j), r, sdIdx(m.Sections[1:], m.Dots, gotItems, r, j))) && sdIdx(m.Sections[1:], m.Dots, gotItems, r, len(m.Sections) - 1) == len(gotItems))
@@ -508,6 +538,7 @@ package engine
 // struct recursively (every element / field, in order), anything else as the scalar itself; AST nodes are
 // additionally wrapped so that the region narrows to the node.
 //@ func (c *matcherCompiler) compileGeneric(v) (m)
+//@   requires [C08] a-valid-value: kind(v) != 0
 //@   requires typing: compileEnvOK()
 //@   unfold compileEnvOK() == compileEnvFacts()
 //@   decreases 8 * rvSize(v) + 5
@@ -526,6 +557,7 @@ package engine
 //@   inline
 
 //@ func (c *matcherCompiler) compilePtr(v) (m)
+//@   requires [C08] a-pointer: kind(v) == 22
 //@   requires typing: compileEnvOK()
 //@   unfold compileEnvOK() == compileEnvFacts()
 //@   decreases 8 * rvSize(v) + 4
@@ -536,6 +568,7 @@ package engine
 //@   ensures [C01] pointer-to-the-compiled-target: !risnil(v) ==> m == boxed(mk("github.com/uber-go/gopatch/internal/engine.PtrMatcher", cM(c.fset, c.meta, relem(v), c.patchStart, c.patchEnd)))
 
 //@ func (c *matcherCompiler) compileInterface(v) (m)
+//@   requires [C08] an-interface: kind(v) == 20
 //@   requires typing: compileEnvOK()
 //@   unfold compileEnvOK() == compileEnvFacts()
 //@   decreases 8 * rvSize(v) + 4
@@ -546,6 +579,7 @@ package engine
 //@   ensures [C01] interface-holding-the-compiled-value: !risnil(v) ==> m == boxed(mk("github.com/uber-go/gopatch/internal/engine.InterfaceMatcher", cM(c.fset, c.meta, relem(v), c.patchStart, c.patchEnd)))
 
 //@ func (c *matcherCompiler) compileSlice(v) (m)
+//@   requires [C08] a-list: kind(v) == 23
 //@   requires typing: compileEnvOK()
 //@   unfold compileEnvOK() == compileEnvFacts()
 //@   decreases 8 * rvSize(v) + 4
@@ -561,6 +595,7 @@ package engine
 //@     decreases rlen(v) - i
 
 //@ func (c *matcherCompiler) compileStruct(v) (m)
+//@   requires [C08] a-struct: kind(v) == 25
 //@   requires typing: compileEnvOK()
 //@   unfold compileEnvOK() == compileEnvFacts()
 //@   decreases 8 * rvSize(v) + 4
@@ -596,6 +631,7 @@ package engine
 // Lists that may contain elisions (C04): every element that is not an elision is compiled, in order;
 // each elision closes a section. Without elisions the list is an ordinary list pattern.
 //@ func (c *matcherCompiler) compileSliceDots(items, isDots) (m)
+//@   requires [C08] a-list: kind(items) == 23
 //@   requires typing: compileEnvOK()
 //@   unfold compileEnvOK() == compileEnvFacts()
 //@   requires typing: isDots != nil
@@ -621,6 +657,7 @@ package engine
 // `for ... { body }` (no init, no post, the condition an elision) matches any for / range statement
 // whose body matches; every other for statement is compiled structurally.
 //@ func (c *matcherCompiler) compileForStmt(v) (m)
+//@   requires [C08] a-valid-value: kind(v) != 0
 //@   requires typing: compileEnvOK()
 //@   unfold compileEnvOK() == compileEnvFacts()
 //@   requires typing: rvIface(v).typ == dyn("*go/ast.ForStmt") && rvIface(v).val != nil
@@ -637,6 +674,7 @@ package engine
 // An identifier of the '-' pattern: a declared metavariable becomes a MetavarMatcher of its kind (C02),
 // anything else (including an absent identifier) is matched as ordinary code.
 //@ func (c *matcherCompiler) compileIdent(v) (m)
+//@   requires [C08] a-valid-value: kind(v) != 0
 //@   requires typing: compileEnvOK()
 //@   unfold compileEnvOK() == compileEnvFacts()
 //@   requires typing: rvIface(v).typ == dyn("*go/ast.Ident")
@@ -652,6 +690,7 @@ package engine
 // Structural compilation of the '+' side (Level 2, C03): by kind - pointer, interface, list and struct
 // recursively (every element / field, in order, of the pattern's own type), anything else verbatim.
 //@ func (c *replacerCompiler) compileGeneric(v) (m)
+//@   requires [C08] a-valid-value: kind(v) != 0
 //@   requires typing: compileEnvOK()
 //@   unfold compileEnvOK() == compileEnvFacts()
 //@   decreases 8 * rvSize(v) + 5
@@ -667,6 +706,7 @@ package engine
 //@   ensures [C03] structs: kind(v) == 25 ==> m.typ == dyn("github.com/uber-go/gopatch/internal/engine.StructReplacer") && unbox(m, "S_engine_StructReplacer").Type == rtype(v) && len(unbox(m, "S_engine_StructReplacer").Fields) == numfield(rtype(v)) && forall j int {unbox(m, "S_engine_StructReplacer").Fields[j]} :: 0 <= j && j < numfield(rtype(v)) ==> unbox(m, "S_engine_StructReplacer").Fields[j] == cR(c.fset, c.meta, c.dotAssoc, fld(v, j), c.patchStart, c.patchEnd)
 
 //@ func (c *replacerCompiler) compilePtr(v) (m)
+//@   requires [C08] a-pointer: kind(v) == 22
 //@   requires typing: compileEnvOK()
 //@   unfold compileEnvOK() == compileEnvFacts()
 //@   decreases 8 * rvSize(v) + 4
@@ -678,6 +718,7 @@ package engine
 //@   ensures [C03] pointer-to-the-compiled-target: !risnil(v) ==> m == boxed(mk("github.com/uber-go/gopatch/internal/engine.PtrReplacer", cR(c.fset, c.meta, c.dotAssoc, relem(v), c.patchStart, c.patchEnd), rtype(v)))
 
 //@ func (c *replacerCompiler) compileInterface(v) (m)
+//@   requires [C08] an-interface: kind(v) == 20
 //@   requires typing: compileEnvOK()
 //@   unfold compileEnvOK() == compileEnvFacts()
 //@   decreases 8 * rvSize(v) + 4
@@ -689,6 +730,7 @@ package engine
 //@   ensures [C03] interface-holding-the-compiled-value: !risnil(v) ==> m == boxed(mk("github.com/uber-go/gopatch/internal/engine.InterfaceReplacer", cR(c.fset, c.meta, c.dotAssoc, relem(v), c.patchStart, c.patchEnd), rtype(v)))
 
 //@ func (c *replacerCompiler) compileSlice(v) (m)
+//@   requires [C08] a-list: kind(v) == 23
 //@   requires typing: compileEnvOK()
 //@   unfold compileEnvOK() == compileEnvFacts()
 //@   decreases 8 * rvSize(v) + 4
@@ -706,6 +748,7 @@ package engine
 //@     decreases rlen(v) - i
 
 //@ func (c *replacerCompiler) compileStruct(v) (m)
+//@   requires [C08] a-struct: kind(v) == 25
 //@   requires typing: compileEnvOK()
 //@   unfold compileEnvOK() == compileEnvFacts()
 //@   decreases 8 * rvSize(v) + 4
@@ -724,6 +767,7 @@ package engine
 // An identifier of the '+' pattern: a declared metavariable is replaced by what it captured, anything
 // else is generated verbatim.
 //@ func (c *replacerCompiler) compileIdent(v) (m)
+//@   requires [C08] a-valid-value: kind(v) != 0
 //@   requires typing: compileEnvOK()
 //@   unfold compileEnvOK() == compileEnvFacts()
 //@   requires typing: rvIface(v).typ == dyn("*go/ast.Ident") && rvIface(v).val != nil
@@ -755,6 +799,7 @@ package engine
 // Lists of the '+' side that may contain elisions (C04): every element that is not an elision is compiled,
 // in order; each elision closes a section and is recorded for association with a '-' elision.
 //@ func (c *replacerCompiler) compileSliceDots(items, isDots) (m)
+//@   requires [C08] a-list: kind(items) == 23
 //@   requires typing: compileEnvOK()
 //@   unfold compileEnvOK() == compileEnvFacts()
 //@   requires typing: isDots != nil
@@ -781,6 +826,7 @@ package engine
 //@     decreases rlen(items) - i
 
 //@ func (c *replacerCompiler) compileForStmt(v) (m)
+//@   requires [C08] a-valid-value: kind(v) != 0
 //@   requires typing: compileEnvOK()
 //@   unfold compileEnvOK() == compileEnvFacts()
 //@   requires typing: rvIface(v).typ == dyn("*go/ast.ForStmt") && rvIface(v).val != nil
@@ -803,15 +849,18 @@ package engine
 //@ iface Replacer.Replace(d, cl, pos) (v, err)
 //@   requires d != nil
 //@   requires clOK(cl)
+//@   ensures [C08] what-a-replacer-builds-is-a-value: err == nil ==> kind(v) != 0
 //@   assigns group(ast)
 
 // The replacers mirror the '+' pattern node by node (C03): an absent part is the zero value of its type, a
 // verbatim part is the pattern's own value, a pointer / interface holds what its target replacer built,
 // element k of a list (field k of a struct) is what replacer k built, from the same bindings and position.
 //@ func (r ZeroReplacer) Replace(d, cl, pos) (v, err)
+//@   requires typing: r.Type != nil
 //@   ensures [C03] absent-parts-are-the-zero-value-of-their-type: err == nil && rtype(v) == r.Type && v == rzero(r.Type)
 
 //@ func (r ValueReplacer) Replace(d, cl, pos) (v, err)
+//@   requires typing: kind(r.Value) != 0
 //@   ensures [C03] verbatim: err == nil && v == r.Value
 
 // A metavariable occurrence of the '+' pattern is replaced by what THIS metavariable captured at this site
@@ -823,6 +872,7 @@ package engine
 //@   at call engine.Replacer.Replace assert [C03] reproduces-what-this-metavariable-captured: dmap(d)[mvKey(m.Name)] != nil && arg0 == storedReplacer(dmap(d)[mvKey(m.Name)]) && dmap(arg1) == emptyMap() && arg3 == pos
 
 //@ func (r PtrReplacer) Replace(d, cl, pos) (v, err)
+//@   requires typing: r.Type != nil
 //@   requires r.Replacer != nil
 //@   at call engine.Replacer.Replace assert [C03] target-built-from-the-same-bindings: arg0 == r.Replacer && arg1 == d && arg3 == pos
 //@   at call reflect.New assert [C03] of-the-pattern-type: arg0 == r.Type
@@ -839,6 +889,7 @@ package engine
 //@   ensures [C03] everything-else-is-accepted: !(rvIface(v).typ == dyn("*go/ast.AssignStmt") && rvIface(v).val != nil && (len(as("*go/ast.AssignStmt", rvIface(v).val).Lhs) == 0 || len(as("*go/ast.AssignStmt", rvIface(v).val).Rhs) == 0)) ==> err == nil
 
 //@ func (r InterfaceReplacer) Replace(d, cl, pos) (v, err)
+//@   requires typing: r.Type != nil
 //@   requires r.Replacer != nil
 //@   at call engine.Replacer.Replace assert [C03] value-built-from-the-same-bindings: arg0 == r.Replacer && arg1 == d && arg3 == pos
 //@   at call reflect.New assert [C03] of-the-pattern-type: arg0 == r.Type
@@ -846,6 +897,7 @@ package engine
 //@   ensures [C03] the-built-interface-is-returned: err == nil ==> v == relem(ret("reflect.New", 0))
 
 //@ func (r StructReplacer) Replace(d, cl, pos) (v, err)
+//@   requires typing: r.Type != nil && tkind(r.Type) == 25 && len(r.Fields) == numfield(r.Type)
 //@   requires forall i int {r.Fields[i]} :: 0 <= i && i < len(r.Fields) ==> r.Fields[i] != nil
 //@   at call reflect.New assert [C03] of-the-pattern-type: arg0 == r.Type
 //@   at call engine.Replacer.Replace assert [C03] field-k-built-by-replacer-k-from-the-same-bindings: arg0 == r.Fields[i] && arg1 == d && arg3 == pos
@@ -853,6 +905,7 @@ package engine
 //@   ensures [C03] the-built-struct-is-returned: err == nil ==> v == relem(ret("reflect.New", 0))
 
 //@ func (r SliceReplacer) Replace(d, cl, pos) (v, err)
+//@   requires typing: r.Type != nil && tkind(r.Type) == 23
 //@   requires forall i int {r.Items[i]} :: 0 <= i && i < len(r.Items) ==> r.Items[i] != nil
 //@   at call reflect.MakeSlice assert [C03] one-slot-per-pattern-element: arg0 == r.Type && arg1 == len(r.Items)
 //@   at call engine.Replacer.Replace assert [C03] element-k-built-by-replacer-k-from-the-same-bindings: arg0 == r.Items[i] && arg1 == d && arg3 == pos
@@ -861,6 +914,7 @@ package engine
 
 // setValue is the only place a replacer writes a generated value; it refuses ill-typed values.
 //@ func setValue(dst, src) (err)
+//@   requires [C08] both-are-values: kind(dst) != 0 && kind(src) != 0
 //@   assigns group(ast)
 //@   ensures [C03,C08] ill-typed-is-an-error: !tassignable(rtype(src), rtype(dst)) ==> err != nil
 
@@ -925,10 +979,13 @@ package engine
 //@ func lookupSliceDotsSkipped(d, dots) (result, region)
 //@   requires d != nil
 //@   assigns nothing
+//@   ensures-assumed typing: forall k int {result[k]} :: 0 <= k && k < len(result) ==> kind(result[k]) != 0
+//@   ensures-assumed typing: allocated(arr(result))
 
 // The rewritten list: section replacements interleaved with the recorded runs. The result is built in
 // fresh memory: neither the captured runs nor any other existing list may be written (C05).
 //@ func (r SliceDotsReplacer) Replace(d, cl, pos) (v, err)
+//@   requires typing: r.Type != nil && tkind(r.Type) == 23
 //@   at call reflect.Zero assert [C04,C09] an-empty-list-is-the-absent-list-as-the-parser-builds-it: arg0 == r.Type && len(items) == 0
 //@   at call reflect.MakeSlice assert [C04,C09] one-slot-per-element-of-a-non-empty-list: arg0 == r.Type && arg1 == len(items) && arg1 > 0
 //@   at call engine.setValue assert [C04] element-k-to-slot-k: arg0 == idx(ret("reflect.MakeSlice", 0), i) && arg1 == item
@@ -936,11 +993,19 @@ package engine
 //@   requires r.dotAssoc != nil || len(r.Dots) == 0
 //@   loop 0
 //@     invariant skipped.arr == 0 || fresh(skipped.arr)
+//@     invariant forall s int {skipped[s]} :: 0 <= s && s < len(skipped) ==> forall k int {skipped[s].Items[k]} :: 0 <= k && k < len(skipped[s].Items) ==> kind(skipped[s].Items[k]) != 0
+//@     invariant forall s int {skipped[s]} :: 0 <= s && s < len(skipped) ==> allocated(arr(skipped[s].Items))
 //@   loop 1
 //@     invariant [C04,C05] result-list-is-built-in-fresh-memory: items.arr == 0 || fresh(items.arr)
 //@     invariant len(skipped) >= 0
+//@     invariant forall s int {skipped[s]} :: 0 <= s && s < len(skipped) ==> forall k int {skipped[s].Items[k]} :: 0 <= k && k < len(skipped[s].Items) ==> kind(skipped[s].Items[k]) != 0
+//@     invariant forall s int {skipped[s]} :: 0 <= s && s < len(skipped) ==> allocated(arr(skipped[s].Items)) && (arr(items) == 0 || arr(skipped[s].Items) != arr(items))
+//@     invariant [C08] every-collected-element-is-a-value: forall k int {items[k]} :: 0 <= k && k < len(items) ==> kind(items[k]) != 0
 //@   loop 2
 //@     invariant [C04,C05] result-list-is-built-in-fresh-memory: items.arr == 0 || fresh(items.arr)
+//@     invariant forall s int {skipped[s]} :: 0 <= s && s < len(skipped) ==> forall k int {skipped[s].Items[k]} :: 0 <= k && k < len(skipped[s].Items) ==> kind(skipped[s].Items[k]) != 0
+//@     invariant forall s int {skipped[s]} :: 0 <= s && s < len(skipped) ==> allocated(arr(skipped[s].Items)) && (arr(items) == 0 || arr(skipped[s].Items) != arr(items))
+//@     invariant [C08] every-collected-element-is-a-value: forall k int {items[k]} :: 0 <= k && k < len(items) ==> kind(items[k]) != 0
 //@   loop 3
 //@     invariant true
 
@@ -1080,6 +1145,7 @@ package engine
 // import compiled in the order written; the code pattern is the side's single node, a statement list
 // being framed as such.
 //@ func (c *matcherCompiler) compileFile(file) (m)
+//@   requires typing: file.Node.typ == dyn("*github.com/uber-go/gopatch/internal/pgo.Expr") ==> as("*github.com/uber-go/gopatch/internal/pgo.Expr", file.Node.val).Expr != nil
 //@   requires typing: compileEnvOK()
 //@   requires file != nil
 //@   requires typing: file.Node.val != nil && (file.Node.typ == dyn("*github.com/uber-go/gopatch/internal/pgo.Expr") || file.Node.typ == dyn("*github.com/uber-go/gopatch/internal/pgo.GenDecl") || file.Node.typ == dyn("*github.com/uber-go/gopatch/internal/pgo.FuncDecl") || file.Node.typ == dyn("*github.com/uber-go/gopatch/internal/pgo.StmtList"))
@@ -1103,6 +1169,7 @@ package engine
 //@     invariant c.dots.arr == old(c.dots.arr) || fresh(c.dots.arr)
 //@     invariant ms.arr == 0 || fresh(ms.arr)
 //@ func (c *replacerCompiler) compileFile(file) (m)
+//@   requires typing: file.Node.typ == dyn("*github.com/uber-go/gopatch/internal/pgo.Expr") ==> as("*github.com/uber-go/gopatch/internal/pgo.Expr", file.Node.val).Expr != nil
 //@   requires typing: compileEnvOK()
 //@   requires file != nil
 //@   requires typing: file.Node.val != nil && (file.Node.typ == dyn("*github.com/uber-go/gopatch/internal/pgo.Expr") || file.Node.typ == dyn("*github.com/uber-go/gopatch/internal/pgo.GenDecl") || file.Node.typ == dyn("*github.com/uber-go/gopatch/internal/pgo.FuncDecl") || file.Node.typ == dyn("*github.com/uber-go/gopatch/internal/pgo.StmtList"))
